@@ -7,7 +7,7 @@ import PpciVerif.Model.IRJson
   write <sexpr>     -> ok <json text of Model.IRJson.writeModule m> | err NotImplementedError
   read <json text>  -> ok <sexpr of the module Model.IRJson.readModule builds> | err <ExceptionName>
   rt <sexpr>        -> read (write m)
-  frag <sexpr>      -> ok 1 | ok 0            (Model.IRFrag.fragCore)
+  frag <sexpr>      -> ok 1 | ok 0 <reason>,…  (Model.IRFrag.fragCore; reasons from fragReport)
 
 JSON text on the wire is compact, one line, ASCII; a float is the object {"$float":"<binary64 bits, decimal>"}
 (the harness converts Python floats to and from this form).  The JSON text parser / printer below
@@ -165,7 +165,11 @@ def step (line : String) : String :=
     | none => "bad-op"
   else if line.startsWith "frag " then
     match parseModule (line.drop 5).toString with
-    | some m => if fragCore m then "ok 1" else "ok 0"
+    | some m =>
+      -- reasons: the text-only conjuncts of `fragReport` are dropped
+      let r := (fragReport (fun _ => []) m).filter (fun x => !["float-text", "identifier", "rol-keyword"].contains x)
+      if fragCore m then (if r.isEmpty then "ok 1" else "bad-op")
+      else (if r.isEmpty then "bad-op" else "ok 0 " ++ ",".intercalate r)
     | none => "bad-op"
   else "bad-op"
 
